@@ -2,6 +2,7 @@ package msgpack
 
 import (
 	"bytes"
+	"math"
 
 	"github.com/vmihailenco/msgpack/v5"
 	msgpackCodes "github.com/vmihailenco/msgpack/v5/msgpcode"
@@ -104,6 +105,10 @@ func unmarshalPrimitive(dec *msgpack.Decoder, ty cty.Type, path cty.Path) (cty.V
 			rv, err := dec.DecodeFloat64()
 			if err != nil {
 				return cty.DynamicVal, path.NewErrorf("number is required")
+			}
+			if math.IsNaN(rv) {
+				// cty numbers cannot represent NaN, and NumberFloatVal panics on it
+				return cty.DynamicVal, path.NewErrorf("number is required, not NaN")
 			}
 			return cty.NumberFloatVal(rv), nil
 		default:
